@@ -80,6 +80,18 @@ impl<T: Clone + PartialEq> Probe<T> {
         self.direct.as_ref().is_some_and(|probed| probed.id() == id)
     }
 
+    #[cfg(feature = "verif-hooks")]
+    pub(crate) fn verif_state(&self) -> (Option<&Member<T>>, &[T], ProbeNumber, bool, usize, bool) {
+        (
+            self.direct.as_ref(),
+            &self.indirect,
+            self.probe_number,
+            self.direct_ack_ok,
+            self.indirect_ack_count,
+            self.reached_indirect_probe_stage,
+        )
+    }
+
     pub(crate) const fn succeeded(&self) -> bool {
         self.direct_ack_ok || self.indirect_ack_count > 0
     }
